@@ -43,7 +43,8 @@ pub fn eval_int(expression: Pairs<Rule>) -> i64 {
                     (W(lhs) / W(rhs)).0
                 }
             }
-            Rule::power => lhs.pow(rhs as u32),
+            // wrapping like + - * above: `2 ^ 64` must not panic in debug builds
+            Rule::power => lhs.wrapping_pow(rhs as u32),
             _ => unreachable!(),
         })
         .parse(expression)
